@@ -191,6 +191,23 @@ FACT = [
      ["linear = self.linear_loc()", "unique_mask = np.diff(linear) != 0",
       "if unique_mask.sum() == len(unique_mask):\n    return", "unique_mask = np.append(True, unique_mask)"],
      "Definition s_dup_mask (lin : tarr) : list bool := map (fun v => negb (v =? 0)) (np_diff lin)."),
+    # _dot, COO @ COO: the row pointers of both operands count stored elements; they are intp (alternative: the
+    # operands' coordinate dtype, which cannot count more elements than it can index — then the theorem breaks)
+    ("s_dot_indptr_dtype", TOP, "_dot",
+     ["a_indptr = np.empty(a.shape[0] + 1, dtype=np.intp)", "b_indptr = np.empty(b.shape[0] + 1, dtype=np.intp)",
+      "np.cumsum(np.bincount(a.coords[0], minlength=a.shape[0]), out=a_indptr[1:])",
+      "np.cumsum(np.bincount(b.coords[0], minlength=b.shape[0]), out=b_indptr[1:])"],
+     "Definition s_dot_indptr_dtype (d : dty) : dty := DInt i64."),
+    ("s_dot_indptr_dtype", TOP, "_dot",
+     ["a_indptr = np.empty(a.shape[0] + 1, dtype=a.coords.dtype)", "b_indptr = np.empty(b.shape[0] + 1, dtype=b.coords.dtype)",
+      "np.cumsum(np.bincount(a.coords[0], minlength=a.shape[0]), out=a_indptr[1:])",
+      "np.cumsum(np.bincount(b.coords[0], minlength=b.shape[0]), out=b_indptr[1:])"],
+     "Definition s_dot_indptr_dtype (d : dty) : dty := d."),
+    # COO.__init__: an array without stored elements gets fresh intp coordinates, whatever dtype was supplied
+    # (the zero-size shortcut of tensordot supplies uintp ones)
+    ("s_ctor_empty_dtype", CORE, "COO.__init__",
+     ["if shape and (not self.coords.size):\n    self.coords = np.zeros((len(shape) if isinstance(shape, Iterable) else 1, 0), dtype=np.intp)"],
+     "Definition s_ctor_empty_dtype (d : dty) : dty := DInt i64."),
     # _calc_counts_invidx: dtype of the returned offsets / counts.  Two alternatives (the first whose
     # statements are all present is emitted): intp (current code), or the dtype of `groups` (finding D2,
     # repaired by 5f3fb78 — if it comes back the definition below changes and reduce's theorem breaks)
